@@ -70,6 +70,11 @@ def run(ctx):
     cases.append("ul 7fd0110580 8192 %d 1048576,1048576" % gen_ops.HUGE)
     cases.append("ul 7fd0110480 0 %d 1048576,1048576" % gen_ops.HUGE)
     cases.append("op unknown:7fd0110580 0 %d pz41*1048576;pz41*1048576;a;" % gen_ops.HUGE)
+    # the 32-bit cap exactly: add-like base 65535 (three atoms, 21492 bytes) times 65537 = 2^32-1, and +-1
+    for lens in ("21492,0,0", "21491,1,0", "21493,0,0", "21491,0,0"):
+        for fl in (0,):
+            cases.append("ul 01000040 %d %d %s" % (fl, gen_ops.HUGE, lens))
+    cases.append("ul 0000ffff00 0 %d -" % gen_ops.HUGE)       # constant function, product 0xffff01
     cases += gen_ops.unknown_len_cases(r, n1, ctx.thorough)
     cases += gen_ops.unknown_tree_cases(r, n2)
     cases = list(dict.fromkeys(cases))
